@@ -323,31 +323,50 @@ def entries_loop_annot(at_end=None):
     return LoopAnnot(on_element=on_element, at_iteration_end=at_iteration_end)
 
 
+def shaped_path(I, t, label):
+    """case split on the spelling of a directory path string t (a z3 term):
+    '/' | no trailing slash | with trailing slashes | ''.  Returns the value
+    to use (structurally decomposed so that join/dirname stay syntactic)."""
+    ctx = I.ctx
+    sh = ctx.choose(4, label)
+    if sh == 0:
+        ctx.assume(t == SV('/'))
+        return '/', sh
+    if sh == 1:
+        ctx.assume(z3.And(t != SV(''), z3.Not(z3.SuffixOf(SV('/'), t))))
+        spec.mark_noendslash(ctx, t)
+        return Sym(t, 'str'), sh
+    if sh == 2:
+        base = ctx.fresh_str(label + 'base')
+        sl = ctx.fresh_str(label + 'sl')
+        ctx.assume(z3.And(base != SV(''), z3.Not(z3.SuffixOf(SV('/'), base))))
+        ctx.assume(z3.And(sl != SV(''), z3.InRe(sl, z3.Star(z3.Re('/')))))
+        spec.mark_noendslash(ctx, base)
+        spec.mark_slashes1(ctx, sl)
+        ctx.assume(t == z3.Concat(base, sl))
+        return Sym(z3.Concat(base, sl), 'str'), sh
+    ctx.assume(t == SV(''))
+    return '', sh
+
+
+def volumes_loop_annot():
+    def on_element(I, env, seq, i, x):
+        v, sh = shaped_path(I, T(x), 'vol-shape')
+        I.ctx.ghost['cur_listed_volume'] = T(v)
+        return v
+    return LoopAnnot(on_element=on_element,
+                     keep={'top_trash_dir_path', 'result', 'alt_top_trash_dir'})
+
+
 def trash_dir_element(I, env, seq, i):
     """arbitrary scanner event"""
     mod = 'trashcli.trash_dirs_scanner'
     d = I.ctx.choose(3, 'scan-event')
     p = Sym(I.ctx.fresh_str('td'), 'str')
     if d == 0:
-        # shape of the trash-dir path string: '' | '/' | no trailing slash |
-        # with trailing slashes (the last only skips the path-algebra lemma)
-        sh = I.ctx.choose(4, 'td-shape')
+        v, sh = shaped_path(I, p.t, 'td-shape')
         I.ctx.ghost['td_shape'] = sh
-        if sh == 0:
-            p = ''
-        elif sh == 1:
-            p = '/'
-        elif sh == 2:
-            I.ctx.assume(z3.And(p.t != SV(''), z3.Not(z3.SuffixOf(SV('/'), p.t))))
-            spec.mark_noendslash(I.ctx, p.t)
-        else:
-            base = I.ctx.fresh_str('tdbase')
-            sl = I.ctx.fresh_str('tdsl')
-            I.ctx.assume(z3.And(base != SV(''), z3.Not(z3.SuffixOf(SV('/'), base))))
-            I.ctx.assume(z3.And(sl != SV(''), z3.InRe(sl, z3.Star(z3.Re('/')))))
-            spec.mark_noendslash(I.ctx, base)
-            spec.mark_slashes1(I.ctx, sl)
-            p = Sym(z3.Concat(base, sl), 'str')
+        p = v
         vol = Sym(I.ctx.fresh_str('vol'), 'str')
         tdcls = I.lookup(mod, 'TrashDir')
         ev = I.lookup(mod, 'trash_dir_found')
@@ -582,3 +601,307 @@ def purge_frame_hook(V, ev, prefix):
                    'file-write'):
         ctx.oblige(prefix + '/frame/unexpected-mutation-%s' % ev.op,
                    z3.BoolVal(False), kind='frame')
+
+
+# ---------------------------------------------------------------------------
+# trash-rm
+# ---------------------------------------------------------------------------
+RM_RUN_LOOP = ('trashcli.rm.rm_cmd', 'RmCmd.run', 0)
+SCAN_VOLUMES_LOOP = ('trashcli.trash_dirs_scanner',
+                     'TrashDirsScanner.scan_trash_dirs', 2)
+volume_at_f = z3.Function('listed_volume_at', spec.State, z3.IntSort(),
+                          z3.StringSort())
+volume_len_f = z3.Function('listed_volume_len', spec.State, z3.IntSort())
+
+
+class ListVolumes(Contract):
+    """VolumesListingImpl.list_volumes(environ): some finite sequence of
+    volume strings (TRASH_VOLUMES or the mount table: psutil is not
+    modelled).  ASSUMED, not verified."""
+    module = 'trashcli.fstab.volume_listing'
+    qualname = 'VolumesListingImpl.list_volumes'
+    assumed = True
+
+    def apply(self, V, a):
+        fs = fs_of(V.I)
+        sg = fs.sigma
+        n = volume_len_f(sg)
+        V.ctx.assume(n >= 0)
+        V.ctx.used_axioms.add('ASSUMED contract: VolumesListingImpl.list_volumes '
+                              'returns an arbitrary finite sequence of strings '
+                              '(psutil / TRASH_VOLUMES parsing not verified)')
+        return SymSeq(n, lambda i, sg=sg: volume_at_f(
+            sg, i if z3.is_expr(i) else z3.IntVal(i)), ('volumes', sg))
+
+
+class FilterMatches(Contract):
+    """Filter.matches(original_location): case-sensitive shell-style match of
+    the pattern against the base name, or against the whole path when the
+    pattern starts with '/'."""
+    module = 'trashcli.rm.filter'
+    qualname = 'Filter.matches'
+    raises = ('IndexError',)
+
+    def setup(self, V):
+        pat = arg_str('pattern')
+        f = V.I.call(V.I.lookup(self.module, 'Filter'), [pat], {})
+        return {'self': f, 'original_location': arg_str('original_location')}
+
+    @staticmethod
+    def spec(ctx, pattern, loc):
+        subject = z3.If(z3.PrefixOf(SV('/'), pattern), loc,
+                        spec.basename(ctx, loc))
+        return spec.glob_f(subject, pattern)
+
+    def post(self, V, a, out):
+        pat = T(a['self'].attrs['pattern'])
+        loc = T(a['original_location'])
+        if out[0] == 'raise':
+            return [('IndexError-only-for-empty-pattern', pat == SV(''))]
+        return [('glob-on-basename-or-full-path',
+                 z3.And(pat != SV(''),
+                        T(out[1]) == self.spec(V.ctx, pat, loc)))]
+
+    def apply(self, V, a):
+        pat = T(a['self'].attrs['pattern'])
+        loc = T(a['original_location'])
+        if not V.ctx.branch(pat != SV(''), 'pattern-nonempty'):
+            raise PyExc(V.I.make_exc('IndexError', 'string index out of range'))
+        return mk(self.spec(V.ctx, pat, loc))
+
+
+def rm_vc(S, prefix='rm'):
+    contracts = [RemoveFileIfExists(), RemoveFile2(), PathOfBackupCopy(),
+                 ParsePath(), FilterMatches(), ListVolumes()]
+    I = S.interp
+
+    def hook(I_, fv, vals):
+        if fv.qualname == 'ListTrashinfos.list_from_volume_trashdir':
+            I_.ctx.ghost['cur_td'] = z3str(vals['trashdir_path'])
+            I_.ctx.ghost['cur_vol'] = z3str(vals['volume'])
+            I_.ctx.ghost['listing'] = 'info'
+
+    def at_end(I_, env):
+        ctx = I_.ctx
+        cur = ctx.ghost['cur_entry']
+        td = ctx.ghost.get('cur_td')
+        calls = ctx.ghost.get('purge_calls', [])
+        name, d = cur['name'], cur['dir']
+        full = spec.join(d, name, ctx=ctx)
+        ctx.oblige(prefix + '/listing-is-the-info-dir',
+                   d == spec.join(td, SV('info'), ctx=ctx))
+        _isti, stem0 = stem_of(ctx, full)
+        is_entry = z3.And(z3.SuffixOf(SV(TI), name), sane_stem(stem0))
+        reads = [e for e in ctx.events[ctx.ghost['out_writes_mark']:]
+                 if e[0] == 'read']
+        pat = ctx.ghost['pattern']
+        vol = ctx.ghost['cur_vol']
+        if len(reads) == 1 and reads[0][3]:
+            text = reads[0][4]
+            j, val = ParsePath.spec(text)
+            loc = spec.join(vol, val, ctx=ctx)
+            want = z3.And(is_entry, j >= 0,
+                          FilterMatches.spec(ctx, pat, loc))
+            ctx.oblige(prefix + '/reads-this-info', reads[0][1] == full)
+        elif len(reads) <= 1:
+            want = z3.BoolVal(False)      # unreadable / not an entry: kept
+        else:
+            ctx.oblige(prefix + '/reads-each-info-once', z3.BoolVal(False))
+            return
+        ctx.oblige(prefix + '/removed-iff-original-name-matches',
+                   z3.BoolVal(len(calls) > 0) == want)
+        if calls:
+            if len(calls) == 2:
+                payload2, _s, _t = payload_spec(ctx, calls[1][1])
+                ctx.oblige(prefix + '/entry-removed-whole-payload-then-info',
+                           z3.And(z3.BoolVal(calls[0][0] == 'remove_file_if_exists'),
+                                  calls[1][1] == full,
+                                  calls[0][1] == payload2))
+            else:
+                ctx.oblige(prefix + '/entry-removed-whole-payload-then-info',
+                           z3.BoolVal(False))
+
+    # the scanner is abstracted here: RmCmd.run is verified for an arbitrary
+    # sequence of scanner events (the scanner has its own VC, see scan.py)
+    loops = {ENTRIES_LOOP: entries_loop_annot(at_end),
+             RM_RUN_LOOP: only_found_annot(),
+             PARSE_PATH_LOOP: parse_path_loop_annot()}
+
+    def body(V):
+        ctx = V.ctx
+        c = wire(V, 'trashcli.rm.main', 'trashcli.rm.rm_cmd', 'RmCmd.run')
+        cmd = c['self']
+        pat = arg_str('pattern')
+        ctx.ghost['pattern'] = pat.t
+        ctx.ghost['event_hooks'] = [lambda ev: purge_frame_hook(V, ev, prefix)]
+        I.call_hooks = [hook]
+        fv = S.resolve('trashcli.rm.rm_cmd', 'RmCmd.run')
+        for q in (('trashcli.rm.cleanable_trashcan',
+                   'CleanableTrashcan.delete_trash_info_and_backup_copy'),
+                  ('trashcli.rm.list_trashinfo',
+                   'ListTrashinfos.list_from_volume_trashdir'),
+                  ('trashcli.trash_dirs_scanner',
+                   'TrashDirsScanner.scan_trash_dirs'),
+                  ('trashcli.lib.trash_dir_reader',
+                   'TrashDirReader.list_trashinfo')):
+            S.resolve(*q)
+        try:
+            V.I.call_function(fv, [], {'self': cmd, 'argv': ['trash-rm', pat],
+                                       'uid': c['uid']})
+            ctx.cover(prefix + '/cover-end')
+        except PyExc as pe:
+            ok = (pe.value.cls.name == 'IndexError' and
+                  ctx.entails(pat.t == SV(''))) or \
+                pe.value.attrs.get('op') == 'listdir' or \
+                pe.value.attrs.get('op') in ('remove_file2',
+                                             'remove_file_if_exists')
+            ctx.oblige(prefix + '/nothrow', z3.BoolVal(bool(ok)), kind='nothrow',
+                       info={'exception': pe.value.cls.name,
+                             'op': pe.value.attrs.get('op')})
+
+    S.install(contracts, loops)
+    S.run_paths(prefix, body, active=[c.key for c in contracts])
+    I.call_hooks = []
+
+
+# ---------------------------------------------------------------------------
+# consent (C14): parse_reply, Guard, EmptyAction.run_action
+# ---------------------------------------------------------------------------
+def enumerate_lower_y():
+    """exhaustive: for every code point c, c.lower() == 'y' iff c in 'yY'
+    (the fact about str.lower that the parse_reply proofs use)"""
+    bad = []
+    n = 0
+    for cp in range(0x110000):
+        c = chr(cp)
+        n += 1
+        if (c.lower() == 'y') != (c in 'yY'):
+            bad.append(cp)
+    if ''.lower() == 'y':
+        bad.append(-1)
+    return n + 1, bad
+
+
+class ParseReply(Contract):
+    """parse_reply(reply): consent only for replies beginning with y or Y"""
+    module = 'trashcli.empty.parse_reply'
+    qualname = 'parse_reply'
+
+    def setup(self, V):
+        return {'reply': arg_str('reply')}
+
+    @staticmethod
+    def spec(reply_t):
+        return z3.Or(z3.PrefixOf(SV('y'), reply_t), z3.PrefixOf(SV('Y'), reply_t))
+
+    def post(self, V, a, out):
+        r = out[1]
+        return [('consent-iff-reply-begins-with-y', T(r) == self.spec(T(a['reply'])))]
+
+    def apply(self, V, a):
+        return mk(self.spec(T(a['reply'])))
+
+
+class ReadInput(Contract):
+    """RealInput.read_input(prompt): any line, or end of input / interrupt.
+    (the terminal is outside the verified code)"""
+    module = 'trashcli.lib.my_input'
+    qualname = 'RealInput.read_input'
+    assumed = True
+
+    def apply(self, V, a):
+        d = V.ctx.choose(3, 'input-outcome')
+        V.ctx.events.append(('prompt', a['prompt']))
+        if d == 1:
+            raise PyExc(V.I.make_exc('EOFError', 'EOF when reading a line'))
+        if d == 2:
+            raise PyExc(V.I.make_exc('KeyboardInterrupt', ''))
+        r = V.ctx.fresh_str('reply')
+        V.ctx.assume(z3.Not(z3.Contains(r, SV('\n'))))
+        V.ctx.ghost.setdefault('replies', []).append(r)
+        return Sym(r, 'str')
+
+
+class DoEmptyProbe(Contract):
+    module = 'trashcli.empty.emptier'
+    qualname = 'Emptier.do_empty'
+    assumed = False
+
+    def apply(self, V, a):
+        V.ctx.ghost.setdefault('do_empty_calls', []).append(a)
+        return None
+
+
+class SelectTrashDirs(Contract):
+    """TrashDirsSelector.select: some scanner events (abstracted: the guard
+    does not depend on them)"""
+    module = 'trashcli.list.trash_dir_selector'
+    qualname = 'TrashDirsSelector.select'
+
+    def apply(self, V, a):
+        n = V.ctx.choose(3, 'n-trash-dirs')
+        out = []
+        for k in range(n):
+            out.append(trash_dir_element(V.I, None, None, None))
+        return out
+
+
+def consent_vc(S, prefix='consent'):
+    contracts = [ReadInput(), DoEmptyProbe(), SelectTrashDirs(), ParseReply()]
+    I = S.interp
+
+    def body(V):
+        ctx = V.ctx
+        c = wire(V, 'trashcli.empty.main', 'trashcli.empty.empty_cmd',
+                 'EmptyCmd.run_cmd')
+        action = c['self'].attrs['empty_action']
+        args_cls = V.I.lookup('trashcli.empty.empty_action', 'EmptyActionArgs')
+        interactive = ctx.choose(2, 'interactive') == 1
+        dry = ctx.choose(2, 'dry-run') == 1
+        days = None
+        if ctx.choose(2, 'days-given') == 1:
+            days = arg_int('days')
+        args = V.I.call(args_cls, [], {
+            'user_specified_trash_dirs': [], 'all_users': False,
+            'interactive': interactive, 'days': days, 'dry_run': dry,
+            'verbose': 0, 'environ': V.I.lib.environ(), 'uid': arg_int('uid')})
+        fs = fs_of(V.I)
+        fs.mutation_allowed = False      # nothing but do_empty may mutate
+        fv = S.resolve('trashcli.empty.empty_action', 'EmptyAction.run_action')
+        for q in (('trashcli.empty.guard', 'Guard.ask_the_user'),
+                  ('trashcli.empty.guard', 'Guard._interactive'),
+                  ('trashcli.empty.guard', 'Guard.non_interactive'),
+                  ('trashcli.empty.user', 'User.do_you_wanna_empty_trash_dirs'),
+                  ('trashcli.empty.prepare_output_message',
+                   'prepare_output_message')):
+            S.resolve(*q)
+        try:
+            V.I.call_function(fv, [], {'self': action, 'args': args})
+            outcome = 'return'
+        except PyExc as pe:
+            outcome = pe.value.cls.name
+        calls = ctx.ghost.get('do_empty_calls', [])
+        replies = ctx.ghost.get('replies', [])
+        if interactive:
+            if replies:
+                yes = ParseReply.spec(replies[-1])
+                ctx.oblige(prefix + '/purge-only-after-a-y-reply',
+                           z3.BoolVal(len(calls) > 0) == yes)
+                ctx.oblige(prefix + '/asked-exactly-once',
+                           z3.BoolVal(len(replies) == 1))
+            else:
+                ctx.oblige(prefix + '/no-purge-on-end-of-input',
+                           z3.BoolVal(len(calls) == 0 and outcome in (
+                               'EOFError', 'KeyboardInterrupt')))
+        else:
+            ctx.oblige(prefix + '/non-interactive-purges-without-asking',
+                       z3.BoolVal(len(calls) == 1 and not replies))
+        for a in calls:
+            ctx.oblige(prefix + '/dry-run-flag-reaches-the-emptier',
+                       z3.BoolVal(a['dry_run'] is dry))
+            ctx.oblige(prefix + '/days-reach-the-emptier',
+                       z3.BoolVal(a['parsed_days'] is days))
+        ctx.cover(prefix + '/cover-end')
+
+    S.install(contracts)
+    S.run_paths(prefix, body, active=[c.key for c in contracts])
